@@ -190,6 +190,7 @@ def run_values(case, stats: Stats | None):
         for c in case["calls"]:
             if c[0].startswith("push_"):
                 _push(x, state, c)
+                x.console_reported()
                 if stats is not None:
                     stats.classes["status-push"] += 1
                 continue
